@@ -94,11 +94,17 @@ class Chk:
                 self.fails[label] = "%r != %r" % (a, b)
 
     def le(self, label, a, b, kind, expand=False):
-        """a <= b  (expand: hand the cross-multiplied comparison to the solver as a sum of monomials)"""
+        """a <= b.  expand: the cross-multiplied comparison is expanded into a sum of monomials and decided on its
+        *monomial abstraction* (see _abstract); if that is not `unsat` the exact comparison is decided instead."""
         if self.P is not None:
             cond = R.of(a) <= R.of(b)
             if expand and isinstance(cond, SB):
-                cond = SB(z3.simplify(cond.t, som=True))
+                o = self.P.holds(label, _abstract(self, cond.t), kind=kind)
+                if o.status == "unsat":
+                    if o.stage and o.stage.startswith("solver"):
+                        o.stage = "solver-full(monomial-abstraction)"
+                    return
+                self.P.obls.remove(o)
             self.P.holds(label, cond, kind=kind)
         else:
             a, b = float(a), float(b)
@@ -110,6 +116,47 @@ class Chk:
             self.P.holds(label, cond, kind=kind)
         elif not bool(cond):
             self.fails[label] = info if info is not None else "condition is False"
+
+
+def _abstract(K, cond):
+    """Monomial abstraction of a polynomial comparison (z3's nonlinear engine is erratic even on `a sum of products
+    of non-negative symbols is non-negative`, measured 0.2 s .. > 30 s).  The comparison is expanded into a sum of
+    monomials; every monomial u*v of two symbols is replaced by a fresh symbol pi_uv; the fact pi_uv >= 0 is used
+    only after  u*v >= 0  has been discharged by the solver under the assumptions as an obligation of its own
+    (kind 'product-of-nonnegatives').  The result  (and pi >= 0) => comparison[pi]  is linear; it implies the original
+    comparison because it holds for every pi >= 0, in particular for pi_uv = u*v."""
+    t = z3.simplify(cond, som=True, arith_lhs=True)
+    table = K.__dict__.setdefault("_mono", {})
+    used = {}
+
+    def rec(e):
+        if z3.is_app_of(e, z3.Z3_OP_MUL):
+            coef, facs = Fraction(1), []
+            for ch in e.children():
+                if z3.is_rational_value(ch):
+                    coef *= ch.as_fraction()
+                else:
+                    facs.append(ch)
+            if len(facs) == 2 and all(z3.is_const(f) and f.decl().kind() == z3.Z3_OP_UNINTERPRETED for f in facs):
+                key = tuple(sorted(f.get_id() for f in facs))
+                if key not in table:
+                    lemma = K.P.holds("%s*%s>=0" % (facs[0], facs[1]), facs[0] * facs[1] >= 0, kind="product-of-nonnegatives")
+                    table[key] = (z3.Real("pi!%s!%s" % (facs[0], facs[1])), lemma.status == "unsat")
+                    if lemma.status != "unsat":
+                        K.P.obls.remove(lemma)      # not a lemma: the monomial stays as it is
+                pi, ok = table[key]
+                if ok:
+                    used[key] = pi
+                    return z3.RatVal(coef.numerator, coef.denominator) * pi
+                return e
+            return e.decl()(*[rec(ch) for ch in e.children()])
+        if z3.is_app(e) and e.num_args() > 0:
+            return e.decl()(*[rec(ch) for ch in e.children()])
+        return e
+    body = rec(t)
+    if not used:
+        return cond
+    return z3.Implies(z3.And([pi >= 0 for pi in used.values()]), body)
 
 
 # ------------------------------------------------------------------------------------------------
